@@ -372,7 +372,9 @@ def unittwist(S, tol=10):
     w = S[3:6]
 
     if iszerovec(w):
+        # pure translation: a rotational part below the zero threshold is zero
         th = norm(v)
+        return np.r_[v / th, np.zeros((3,))]
     else:
         th = norm(w)
 
@@ -417,7 +419,9 @@ def unittwist_norm(S, tol=10):
     w = S[3:6]
 
     if iszerovec(w):
+        # pure translation: a rotational part below the zero threshold is zero
         th = norm(v)
+        return (np.r_[v / th, np.zeros((3,))], th)
     else:
         th = norm(w)
 
@@ -451,7 +455,9 @@ def unittwist2(S):
     w = S[2]
 
     if iszero(w):
+        # pure translation: a rotational part below the zero threshold is zero
         th = norm(v)
+        return np.r_[v / th, 0]
     else:
         th = abs(w)
 
@@ -484,7 +490,9 @@ def unittwist2_norm(S):
     w = S[2]
 
     if iszero(w):
+        # pure translation: a rotational part below the zero threshold is zero
         th = norm(v)
+        return (np.r_[v / th, 0], th)
     else:
         th = abs(w)
 
